@@ -1648,6 +1648,9 @@ def _pick_select(E, rng, ev, tc, gen=False):
     im = np.abs(np.imag(ev))
     if np.any((im > 1e-9) & (im < 0.1)):
         return (lambda s: False), "never"
+    if rng.random() < 0.5:
+        # true for the member of a conjugate pair with NEGATIVE imaginary part only ("f(s) or f(conj(s))" selects the pair)
+        return (lambda s: bool(s.imag < -0.05)), "im<0"
     return (lambda s: bool(s.imag > 0.05)), "im>0"
 
 
